@@ -101,12 +101,39 @@ def _riemann_data(rng, gam, strong=False):
     raise core.Skip("no data")
 
 
-def _riemann_sequence(WL, WR, gam, flux, rname, iname, levels=(50, 100, 200, 400), cfl=0.4):
+def _fans(WL, WR, gam):
+    """(head, tail) speeds of the rarefaction fans of the exact solution (left fan, right fan; None where the wave is a shock)"""
+    _, _, _, (ps, us) = refs.exact_riemann(WL, WR, gam, np.array([0.0]))
+    out = []
+    for (r, u, p), sgn in ((WL, -1.0), (WR, 1.0)):
+        c = np.sqrt(gam * p / r)
+        if ps < p * (1 - 1e-9):
+            cs = c * (ps / p) ** ((gam - 1) / (2 * gam))
+            out.append(tuple(sorted((u + sgn * c, us + sgn * cs))))
+        else:
+            out.append(None)
+    return out
+
+
+def _transonic_data(rng, gam):
+    """expansion through the sonic point: u - c (or u + c for the mirror image) changes sign INSIDE the fan (Toro's test 1 family)"""
+    for _ in range(200):
+        M = float(rng.uniform(0.5, 0.95)); cL = np.sqrt(gam)
+        WL = (1.0, M * cL, 1.0)
+        WR = (float(rng.uniform(0.08, 0.3)), float(rng.uniform(-0.2, 0.2)), float(rng.uniform(0.04, 0.2)))
+        fan = _fans(WL, WR, gam)[0]
+        if fan is not None and fan[0] < -0.1 and fan[1] > 0.1:
+            return WL, WR
+    raise core.Skip("no transonic data")
+
+
+def _riemann_sequence(WL, WR, gam, flux, rname, iname, levels=(50, 100, 200, 400), cfl=0.4, jumps=None):
     sl, sr = refs.riemann_speeds(WL, WR, gam)
     smax = max(abs(sl), abs(sr), 1e-12)
     Lh = 1.0
     T = 0.35 * Lh / smax        # no wave reaches x = +-0.5
     errs = []
+    fans = [f for f in _fans(WL, WR, gam) if f is not None] if jumps is not None else []
     for n in levels:
         mesh = fmesh.unimesh(ncell=n, length=2 * Lh, x0=-Lh)
         model = euler.euler1d(gamma=gam)
@@ -122,6 +149,22 @@ def _riemann_sequence(WL, WR, gam, flux, rname, iname, levels=(50, 100, 200, 400
         norm = [max(abs(WL[0] - WR[0]), 0.05 * max(WL[0], WR[0])), max(abs(WL[1] - WR[1]), 0.05 * cm), max(abs(WL[2] - WR[2]), 0.05 * max(WL[2], WR[2]))]
         e = sum(np.sum(mesh.vol() * np.abs(g - x)) / nrm for g, x, nrm in zip(got, ex[:3], norm)) / (2 * Lh)
         errs.append(float(e))
+        if jumps is not None:
+            # largest density jump between neighbouring cells strictly INSIDE a rarefaction fan of the exact solution, in units of the
+            # density variation across that fan: the exact profile is smooth there, so it must shrink like dx (an expansion shock does not)
+            # ... measured at the SONIC POINT of a transonic fan (x = 0, where an entropy-violating expansion shock would stand still),
+            # over the four cell pairs around it, in units of the density variation across the whole fan
+            xi = xc / fe.time
+            worst = 0.0
+            for head, tail in fans:
+                w = tail - head
+                if head + 0.15 * w < 0.0 < tail - 0.15 * w:
+                    inside = (xi > head) & (xi < tail)
+                    rng_ = abs(float(ex[0][inside][-1] - ex[0][inside][0])) + 1e-300
+                    k0 = int(np.searchsorted(xc, 0.0))
+                    k = np.arange(max(k0 - 3, 0), min(k0 + 2, n - 1))
+                    worst = max(worst, float(np.max(np.abs(np.diff(got[0])[k]))) / rng_)
+            jumps.append(worst)
     return np.array(errs), T
 
 
@@ -134,16 +177,28 @@ def euler_riemann(ctx, rng, idx):
     if rname != "extrapol1" and iname == "explicit":
         iname = "rk2_heun"          # forward Euler with a second-order reconstruction is not a convergent TVD combination at this CFL
     gam = float(rng.choice([1.4, 5 / 3, 1.2]))
-    WL, WR = _riemann_data(rng, gam)
-    if idx % 3 == 2:                # mirror image
+    transonic = bool(rng.random() < 0.35)
+    WL, WR = _transonic_data(rng, gam) if transonic else _riemann_data(rng, gam)
+    if idx % 3 == 2 or (transonic and rng.random() < 0.5):                # mirror image
         WL, WR = (WR[0], -WR[1], WR[2]), (WL[0], -WL[1], WL[2])
     levels = (50, 100, 200, 400)
-    errs, T = _riemann_sequence(WL, WR, gam, flux, rname, iname, levels)
+    jumps = []
+    errs, T = _riemann_sequence(WL, WR, gam, flux, rname, iname, levels, jumps=jumps)
     ratios = errs[1:] / errs[:-1]
-    ctx.describe(flux=flux, recon=rname, integrator=iname, gamma=gam, WL=WL, WR=WR, T=T, levels=levels, errors=errs, ratios=ratios)
+    ctx.describe(flux=flux, recon=rname, integrator=iname, gamma=gam, WL=WL, WR=WR, T=T, levels=levels, errors=errs, ratios=ratios, transonic_rarefaction=transonic, largest_jump_inside_fans=jumps)
+    if jumps and jumps[0] > 0:
+        d = ctx.info.setdefault("fan_jump_finest_over_coarsest", [9.0, 0.0])
+        d[0] = min(d[0], jumps[-1] / jumps[0]); d[1] = max(d[1], jumps[-1] / jumps[0])
+        ctx.info["fan_jump_finest_max"] = max(ctx.info.get("fan_jump_finest_max", 0.0), jumps[-1])
     cls = "riemann:" + flux
     ctx.true("finite", np.all(np.isfinite(errs)), "riemann/%s/not-finite" % flux, {"errors": errs}, cls=cls)
-    ctx.true("monotone", np.all(ratios < 0.97), "riemann/%s/%s/error-not-decreasing-under-refinement" % (flux, "first-order" if rname == "extrapol1" else "muscl"), {"errors": errs, "ratios": ratios}, cls=cls)
+    nz = [j for j in jumps if j > 0]
+    if len(nz) >= 2:
+        # the exact profile is smooth at the sonic point: the jump must shrink with the mesh (measured on the unchanged code: factor
+        # 0.45...0.62 per doubling); a standing expansion shock keeps the same jump on every mesh
+        ctx.true("rarefaction-resolved", nz[-1] <= 0.8 * nz[-2], "riemann/%s/%s/jump-inside-a-rarefaction-fan-does-not-shrink-under-refinement" % (flux, "first-order" if rname == "extrapol1" else "muscl"),
+                 {"largest neighbour jump inside the fans / density variation of the fan, per level": jumps, "transonic": transonic}, cls=cls)
+    ctx.true("monotone", np.all(ratios < 1.0), "riemann/%s/%s/error-not-decreasing-under-refinement" % (flux, "first-order" if rname == "extrapol1" else "muscl"), {"errors": errs, "ratios": ratios}, cls=cls)
     ctx.true("overall", errs[-1] / errs[0] <= 0.7, "riemann/%s/%s/no-overall-convergence" % (flux, "first-order" if rname == "extrapol1" else "muscl"), {"errors": errs}, cls=cls)
     d = ctx.info.setdefault("riemann_ratio_range", [9.0, -9.0])
     ctx.info["riemann_ratio_range"] = [min(d[0], float(np.min(ratios))), max(d[1], float(np.max(ratios)))]
